@@ -34,6 +34,10 @@ func (r *RoutingTable) lengthOfPartCommandHandler(conn redcon.Conn, cmd redcon.C
 		protocol.WriteError(conn, err)
 		return
 	}
+	if verifhook.Fail(r.this.Name, "rt.length-of-part") {
+		protocol.WriteError(conn, fmt.Errorf("verif: injected failure"))
+		return
+	}
 
 	if lengthOfPartCmd.PartID >= r.config.PartitionCount {
 		// There is no such partition: PartitionByID returns nil for it.
